@@ -126,6 +126,14 @@ class ZFn:
         if p["proj"] and p["proj"][0]["k"] == "deref" and key[0] == "L":
             # a dereferenced reference to a local (or to a field of one): continue with the referent
             p = {"local": key[1], "proj": [{"k": "field", "i": i} for i in key[2:]]}
+        if any(e["k"] == "downcast" for e in p["proj"]):
+            # (x as Some).0 / (x as Continue).0: the payload
+            p = {"local": p["local"], "proj": [e for e in p["proj"] if e["k"] != "downcast"]}
+            if len(p["proj"]) == 1 and p["proj"][0]["k"] == "field" and p["proj"][0]["i"] == 0:
+                d = s.single(p["local"])
+                if d and d[0] == "call" and depth < 8:
+                    pv = s.val_payload(d[1], V, depth + 1)
+                    if pv is not None: return pv
         if depth < 8:
             if not p["proj"]:
                 d = s.single(p["local"])
@@ -198,6 +206,18 @@ class ZFn:
         if k == "unop" and rv["op"] == "Not":
             a = s.val_operand(rv["o"], V, depth); return {not x for x in a & {True, False}} or {True, False}
         return {"Z", "NZ", True, False}
+    def val_payload(s, t, V, depth=0):
+        """Z/NZ of the value carried by an Option / Result / ControlFlow produced by this call (None: not modelled)"""
+        fn = t["func"].get("fn") or {}
+        name, path = fn.get("name"), fn.get("path") or ""
+        if depth > 8 or not t["args"]: return None
+        if path.startswith("core::num::") and name in ("checked_mul", "checked_add", "checked_sub") and len(t["args"]) == 2:
+            rv = {"k": "binop", "op": {"checked_mul": "Mul", "checked_add": "Add", "checked_sub": "Sub"}[name], "l": t["args"][0], "r": t["args"][1]}
+            return s.val_rvalue(rv, V, depth + 1)
+        if name in ("ok_or_else", "ok_or", "branch", "map_err", "ok", "or_else", "inspect", "filter") and t["args"][0]["k"] in ("copy", "move") and not t["args"][0]["p"]["proj"]:
+            d = s.single(t["args"][0]["p"]["local"])
+            if d and d[0] == "call": return s.val_payload(d[1], V, depth + 1)
+        return None
     def val_call(s, t, V, field):
         fn = t["func"].get("fn") or {}
         name = fn.get("name")
@@ -398,6 +418,16 @@ def analyse(f, ARR, body, summaries, mode="sites", ret_pairs=None, ctor_sinks=No
                     slice_from(d[1]["fields"][o["p"]["proj"][0]["i"]], depth + 1)
 
     sink_sites = []
+    # the usize locals / parameters named num_rows and num_cols (the last ones of that name: the unwrapped values)
+    accept_dims = None
+    if ctor_sinks is not None:
+        byname = {}
+        for v in b.get("debug", []):
+            val = v.get("v")
+            if isinstance(val, dict) and "local" in val and not val.get("proj") and b["locals"][val["local"]] == "usize":
+                byname[v["name"]] = val["local"]
+        if "num_rows" in byname and "num_cols" in byname:
+            accept_dims = (byname["num_rows"], byname["num_cols"])
     dimkeys = [k for pr in entry_pairs for k in pr]
     writes_dims = False
     for bl in b["blocks"]:
@@ -430,6 +460,14 @@ def analyse(f, ARR, body, summaries, mode="sites", ret_pairs=None, ctor_sinks=No
                 for (i0, i1) in ret_pairs:
                     slice_from(fl[i0]); slice_from(fl[i1])
                     sink_sites.append((bi, si, "ret:%d,%d" % (i0, i1), fl[i0], fl[i1], st["span"]))
+            # a deserialisation-side function accepts the document where it builds `Ok(array)`: the parsed dimensions
+            # (its usize values named num_rows / num_cols) must obey the zero rule there, whichever way the array is made
+            if mode == "sites" and ctor_sinks is not None and accept_dims and st["k"] == "assign" and st["p"]["local"] == 0 and not st["p"]["proj"] \
+                    and st["rv"]["k"] == "agg" and st["rv"].get("agg") == "adt" and st["rv"].get("variant") == "Ok" and "TooDee<" in b["locals"][0]:
+                ro_ = {"k": "copy", "p": {"local": accept_dims[0], "proj": []}}
+                co_ = {"k": "copy", "p": {"local": accept_dims[1], "proj": []}}
+                slice_from(ro_); slice_from(co_)
+                sink_sites.append((bi, si, "accept:Ok", ro_, co_, st["span"]))
         t = bl["term"]
         if mode == "sites" and t and t["k"] == "call" and ctor_sinks:
             fnr = (t["func"].get("fn") or {})
@@ -465,7 +503,22 @@ def analyse(f, ARR, body, summaries, mode="sites", ret_pairs=None, ctor_sinks=No
                     src = rv["o"]
                 elif len(dp["proj"]) == 1 and dp["proj"][0]["k"] == "field" and rv["k"] == "agg" and rv["agg"] == "tuple":
                     src = rv["fields"][dp["proj"][0]["i"]]
-            if src is not None and src["k"] in ("copy", "move") and Z.canon(src["p"]) in tracked:
+            def depends(o, depth=0):
+                """the operand's value is computed from tracked values (through copies, arithmetic, Option payloads)"""
+                if o is None or o.get("k") not in ("copy", "move") or depth > 8:
+                    return False
+                if Z.canon(o["p"]) in tracked:
+                    return True
+                for dd in Z.defs.get(o["p"]["local"], []):
+                    if dd[0] == "rv":
+                        if any(depends(x, depth + 1) for x in [dd[1].get("o"), dd[1].get("l"), dd[1].get("r")] + list(dd[1].get("fields", []))):
+                            return True
+                    elif dd[0] == "call":
+                        fn_ = dd[1]["func"].get("fn") or {}
+                        if fn_.get("name") in ("checked_mul", "checked_add", "checked_sub", "ok_or_else", "ok_or", "branch", "map_err", "ok") and any(depends(x, depth + 1) for x in dd[1]["args"]):
+                            return True
+                return False
+            if src is not None and src["k"] in ("copy", "move") and (Z.canon(src["p"]) in tracked or depends(src)):
                 tracked.append(key)
                 grew = True
                 continue
@@ -657,7 +710,9 @@ def r_zero(f, serde_sinks=False):
             ok = not e["bad"]
             R.inst(b.ident, "%s#%d: rows==0 <=> cols==0 in every abstract state reaching it (%d states)" % (kind, o, e["n"]), ok)
             if not ok:
-                if kind.startswith("call:"):
+                if kind.startswith("accept:"):
+                    msg = "%s can return Ok(array) for a document whose parsed dimensions are %s (exactly one of them zero): an inconsistent document is accepted" % (b.ident, sorted(e["bad"]))
+                elif kind.startswith("call:"):
                     msg = "%s can reach the call of the asserting constructor %s with exactly one zero dimension %s: it panics instead of returning an error" % (b.ident, kind[5:], sorted(e["bad"]))
                 elif kind == "return":
                     msg = "%s can return with exactly one of (num_rows, num_cols) zero: %s" % (b.ident, sorted(e["bad"]))
